@@ -9,7 +9,7 @@ use std::f64::consts::PI;
 
 pub fn monitor() -> Monitor {
   Monitor { id: "C16",
-    rule: "(a) every cell of depths <= 7 (quick) / <= 9 (thorough) + class-sampled cells of every deeper depth: true largest centre-to-vertex distance (reference geometry) vs largest_center_to_vertex_distance at the centre and at 2 random interior positions of the cell; (b) cones (centre from the sphere/pole/seam/transition generators, radius 0.02..40 cell sizes, capped at pi/2): the *_with_radius bound (single and multi-depth forms) vs the true value of every cell whose centre is within the radius — cells found by hashing sample points of the cone (brute force over all cells for depth <= 4); (c) best_starting_depth: monotone, equal to a linear scan of the thresholds located by bisection, refusal of radii >= the depth-0 limit consistent with has_best_starting_depth, and containment of 96 boundary points of the cone in the centre cell + neighbours for radii at (1-{1e-12..0.3}) x threshold with centres aimed at seams, poles, transition latitude; plus, per depth, 6 witness cones built on the thinnest cell of the depth found by the reference geometry (width W): centre just outside one edge, radius W(1 +- {3e-4,3e-3,3e-2}) and the largest radius still answered with that depth (centre 1e-6 W outside), probe through the nearest point of the opposite edge. Non-trivial = cell on a base-cell border/corner, cone containing a pole or straddling the transition latitude / LAT_OF_SQUARE_CELL, radius within 5% of a threshold.",
+    rule: "(a) every cell of depths <= 7 (quick) / <= 9 (thorough) + class-sampled cells of every deeper depth: true largest centre-to-vertex distance (reference geometry) vs largest_center_to_vertex_distance at the centre and at 2 random interior positions of the cell; (b) cones (centre from the sphere/pole/seam/transition generators, radius 0.02..40 cell sizes capped at pi/2, and one cone in six with a radius in (0.3, pi] at depths 1..5, longitude outside [0,2pi) one time in eight): the *_with_radius bound (single and multi-depth forms) vs the true value of every cell whose centre is within the radius — cells found by hashing sample points of the cone (brute force over all cells for depth <= 5); (c) best_starting_depth: monotone, equal to a linear scan of the thresholds located by bisection, refusal of radii >= the depth-0 limit consistent with has_best_starting_depth, and containment of 96 boundary points of the cone in the centre cell + neighbours for radii at (1-{1e-12..0.3}) x threshold with centres aimed at seams, poles, transition latitude; plus, per depth, 6 witness cones built on the thinnest cell of the depth found by the reference geometry (width W): centre just outside one edge, radius W(1 +- {3e-4,3e-3,3e-2}) and the largest radius still answered with that depth (centre 1e-6 W outside), probe through the nearest point of the opposite edge. Non-trivial = cell on a base-cell border/corner, cone containing a pole or straddling the transition latitude / LAT_OF_SQUARE_CELL, radius within 5% of a threshold.",
     assumptions: &["reference cell geometry; Layer::hash (C01) and Layer::neighbours (C04) for the containment claim", "distances carry an absolute slack of 1e-15 rad and a relative one of 1e-12"],
     run, replay }
 }
@@ -77,7 +77,12 @@ fn gen_cone(rng: &mut Rng) -> (Case, ()) {
   let depth = 1 + rng.below(29) as u8;
   let cell = 1.0 / nside(depth) as f64;
   let (lon, lat) = cone_center(rng);
-  let r = (cell * rng.log_uniform(0.02, 40.0)).min(PI / 2.0);
+  let mut r = (cell * rng.log_uniform(0.02, 40.0)).min(PI / 2.0);
+  let mut depth = depth;
+  // large cones (the coverage queries call these helpers with radii up to pi): coarse depths, where every cell is enumerated;
+  // includes cones containing both poles (r > pi/2 + |lat|)
+  if rng.below(6) == 0 { depth = 1 + rng.below(5) as u8; r = if rng.coin() { rng.range(PI / 2.0, PI) } else { rng.range(0.3, PI) }; }
+  let lon = any_turn(rng, lon);
   (Case::new("cone").u("depth", depth as u64).f("lon", lon).f("lat", lat).f("r", r).u("s", rng.next() >> 1), ())
 }
 
@@ -89,7 +94,7 @@ pub fn judge_cone(ctx: &mut Ctx, c: &Case) {
   let b = match catch(|| cdshealpix::largest_center_to_vertex_distance_with_radius(depth, lon, lat, r)) { Ok(b) => b, Err(e) => { ctx.violation("with_radius-panics", c.clone(), e); return; } };
   // cells whose centre lies within r of the position
   let mut cells: BTreeSet<u64> = BTreeSet::new();
-  if depth <= 4 { for h in 0..n_hash(depth) { cells.insert(h); } }
+  if depth <= 5 { for h in 0..n_hash(depth) { cells.insert(h); } }
   else {
     cells.insert(layer.hash(lon, lat));
     for k in 0..400 { let rho = match k % 4 { 0 => r, 1 => r * rng.f().sqrt(), 2 => r * (1.0 - 0.1 * rng.f()), _ => r * rng.f() }; let p = point_at(lon, lat, rho, rng.f() * TWO_PI); cells.insert(layer.hash(p.0, p.1)); }
@@ -119,6 +124,7 @@ pub fn judge_cone(ctx: &mut Ctx, c: &Case) {
   }
   let tl = trans_lat();
   let la = lat.abs();
+  if r > PI / 2.0 + la { ctx.hard("cone:contains-both-poles", &[depth as u64, lon.to_bits(), lat.to_bits(), r.to_bits()]); }
   if la + r >= PI / 2.0 { ctx.hard("cone:contains-a-pole", &[depth as u64, lon.to_bits(), lat.to_bits(), r.to_bits()]); }
   else if (la - r < tl && la + r > tl) || (la - r < LAT_OF_SQUARE_CELL && la + r > LAT_OF_SQUARE_CELL) { ctx.hard("cone:straddles-a-region-limit", &[depth as u64, lon.to_bits(), lat.to_bits(), r.to_bits()]); }
   else if la > tl { ctx.hard("cone:polar-cap", &[depth as u64, lon.to_bits(), lat.to_bits(), r.to_bits()]); }
